@@ -152,6 +152,20 @@ def h_pair(eng, u, v, w):
     for sn, mk in sources.items():
         qs = mk()
         eng.prove(Eq(qs.to(v).magnitude, want), f"source-as-{sn}")
+    # Unit.from_ / m_from: a quantity expressed in this unit; bare numbers are taken in this unit
+    V = ureg.Unit(v)
+    fr = V.from_(q)
+    eng.prove(And(Eq(fr.magnitude, want), fr.units == V), "Unit.from_")
+    eng.prove(Eq(V.m_from(q), want), "Unit.m_from")
+    fr = V.from_(x, strict=False)
+    eng.prove(And(Eq(fr.magnitude, x), fr.units == V), "Unit.from_-number-is-in-this-unit")
+    try:
+        V.from_(x)
+    except ValueError:
+        eng.prove(True, "Unit.from_-strict-refuses-numbers")
+    else:
+        eng.fail("Unit.from_-strict-accepts-number")
+    # element access of sequences of quantities
 
 
 def h_compound_twice(eng, u, u2, v, v2, bound):
